@@ -4,13 +4,13 @@ import re, os, sys
 V = os.path.dirname(os.path.dirname(os.path.abspath(__file__)))
 TABLE = {
     # name: (tier, cap, mem or None)
-    "range_included_included": ("thorough", 1500, 12), "range_included_excluded": ("thorough", 1500, 12),
-    "range_excluded_excluded": ("thorough", 1500, 12), "range_excluded_unbounded": ("thorough", 1500, 12),
-    "range_included_unbounded": ("quick", 800, 12), "range_excluded_included": ("quick", 800, 12),
+    "range_included_included": ("thorough", 1500, 16), "range_included_excluded": ("thorough", 1500, 16),
+    "range_excluded_excluded": ("thorough", 1500, 16), "range_excluded_unbounded": ("thorough", 1500, 16),
+    "range_included_unbounded": ("quick", 800, 16), "range_excluded_included": ("quick", 800, 16),
     "range_unbounded_included": ("quick", 400, None), "range_unbounded_excluded": ("quick", 400, None), "range_unbounded_unbounded": ("quick", 400, None),
-    "bucket_put_new_between": ("thorough", 900, None), "bucket_put_new_below": ("quick", 700, None), "bucket_put_over_first": ("quick", 700, None),
+    "bucket_put_new_between": ("thorough", 900, 8), "bucket_put_over_second": ("thorough", 900, 8), "bucket_put_new_above": ("thorough", 900, 8), "bucket_create_step": ("quick", 700, 8), "bucket_delete_first": ("quick", 700, 6), "bucket_put_new_below": ("thorough", 900, 8), "bucket_put_over_first": ("quick", 700, 8),
     "bucket_delete_second": ("thorough", 900, None),
-    "cursor_seek_single_leaf": ("quick", 800, 6),
+    "cursor_seek_single_leaf": ("thorough", 1200, 10),
     "tx_commit_write_plan": ("quick", 800, 10), "tx_commit_power_loss": ("quick", 850, 10), "tx_commit_cow_freed_page_not_reused": ("quick", 800, 10),
     "tx_commit_growth_two_steps": ("quick", 700, 10), "tx_commit_strict_mode_accepts": ("quick", 850, 10),
     "tx_commit_fault_06_sync": ("quick", 700, 10), "tx_commit_fault_08_short": ("quick", 700, 10), "tx_commit_fault_10_sync": ("quick", 700, 10),
